@@ -661,3 +661,89 @@ def run_history(E, mods, pb, history, kw):
             pb.init()
         else:
             raise ValueError(h)
+
+
+@register("history")
+def make_history(model, history, cfg=None, D=None):
+    """C15: the same model solved (A) by a fresh solver on a fresh problem and (B) after a history of earlier uses of the
+    process / of the problem object; solution sequences (as terms over the symbolic inputs) and statistics must be equal"""
+    cfg = dict(cfg or {})
+    md = MODELS[model]
+    if needs_base0(cfg) and md.get("base", "sym") == "sym":
+        md = dict(md, base=0)
+
+    def body(E):
+        mods = _mods()
+        H, P, BS, BCA, CP, CA, SH, Problem = mods
+        ctx = Ctx(E, md, D)
+        kw, tables = make_config(E, H, CA, cfg, ctx)
+        defaults_before = repr(BS.BacktrackSolver.__init__.__defaults__)
+        reg_lens = (len(P.COMPUTE_DOMAINS_FCTS), len(P.GET_TRIGGERS_FCTS), len(P.GET_COMPLEXITY_FCTS), len(H.DOM_HEURISTIC_FCTS), len(H.VAR_HEURISTIC_FCTS), len(CA.CONSISTENCY_ALG_FCTS))
+
+        def viol(kind, m=None, **kw2):
+            if m is None:
+                m = E.model() if E.check() else None
+            v = dict(prop="C15", kind=kind, site=f"history/{model}", cls=None, harness="solve", model=model, cfg=cfg, mode="solve", objective=0, order=None, history=list(history))
+            if m is not None:
+                v.update(ctx.witness(m))
+            v.update(kw2)
+            E.acc.violation(v)
+
+        try:
+            pbA = ctx.build(Problem, P)
+            sA = BS.BacktrackSolver(pbA, **kw)
+            solsA = [s.tolist() for s in sA.solve()]
+            statsA = sA.get_statistics()
+            pbB = ctx.build(Problem, P)
+            snapshot = ([list(x) for x in pbB.shr_domains_lst], list(pbB.dom_indices_lst), list(pbB.dom_offsets_lst), [(list(a), b, list(c)) for a, b, c in pbB.propagators])
+            run_history(E, mods, pbB, history, kw)
+            sB = BS.BacktrackSolver(pbB, **kw)
+            solsB = [s.tolist() for s in sB.solve()]
+            statsB = sB.get_statistics()
+        except Obligation as o:
+            E.acc.count("obligation:" + o.kind)
+            return
+        finally:
+            for lst, n in zip((P.COMPUTE_DOMAINS_FCTS, P.GET_TRIGGERS_FCTS, P.GET_COMPLEXITY_FCTS, H.DOM_HEURISTIC_FCTS, H.VAR_HEURISTIC_FCTS, CA.CONSISTENCY_ALG_FCTS), reg_lens):
+                del lst[n:]
+        E.acc.count(f"solutions:{len(solsA)}")
+        if len(solsA) != len(solsB):
+            viol("different-number-of-solutions-after-history", a=len(solsA), b=len(solsB))
+            return
+        diff = OR([as_z3int(x) != as_z3int(y) for sa, sb in zip(solsA, solsB) for x, y in zip(sa, sb)])
+        if E.query(diff):
+            m = E.model()
+            viol("different-solution-sequence-after-history", m, fresh=[[E.ev(m, as_z3int(v)) for v in s] for s in solsA], after=[[E.ev(m, as_z3int(v)) for v in s] for s in solsB])
+        if {k: int(v) for k, v in statsA.items()} != {k: int(v) for k, v in statsB.items()}:
+            viol("different-statistics-after-history", fresh=dict(statsA), after=dict(statsB))
+        # the problem object keeps its meaning (sorting the propagators by complexity is the documented effect of init)
+        same_meaning = sorted(map(repr, [(list(a), b, [str(x) for x in c]) for a, b, c in pbB.propagators])) == sorted(map(repr, [(a, b, [str(x) for x in c]) for a, b, c in snapshot[3]])) and list(pbB.dom_indices_lst) == snapshot[1] and len(pbB.shr_domains_lst) == len(snapshot[0])
+        if not same_meaning:
+            viol("problem-object-changed-by-solver-construction")
+        else:
+            bad = [as_z3int(x) != as_z3int(y) for d0, d1 in zip(pbB.shr_domains_lst, snapshot[0]) for x, y in zip(d0, d1)]
+            bad += [as_z3int(x) != as_z3int(y) for x, y in zip(pbB.dom_offsets_lst, snapshot[2])]
+            if "split" not in history and E.query(OR(bad)):
+                viol("problem-object-changed-by-solver-construction", E.model())
+        if repr(BS.BacktrackSolver.__init__.__defaults__) != defaults_before:
+            viol("mutable-default-argument-mutated")
+        names = {str(h.e) for h in HAVOC}
+        used = set()
+        for s in solsA + solsB:
+            for v in s:
+                if not isinstance(v, int):
+                    used |= {str(c) for c in _consts(as_z3int(v))}
+        if used & names:
+            viol("result-depends-on-uninitialised-memory", cells=sorted(used & names)[:5])
+        if E.check():
+            m = E.model()
+            w = ctx.witness(m)
+            w.update(harness="solve", model=model, cfg=cfg, mode="solve", objective=0, order=None, history=list(history))
+            for k, t in tables.items():
+                w[k] = [[E.ev(m, c) for c in row] for row in t]
+            w["solutions"] = [[E.ev(m, as_z3int(v)) for v in s] for s in solsB]
+            w["stats"] = {k: int(v) for k, v in statsB.items()}
+            E.acc.valid(w)
+            E.acc.sample({k: w[k] for k in ("model", "doms", "offsets", "history", "solutions")})
+
+    return body
